@@ -140,6 +140,8 @@ def check_main(prop, tier, engine, engine_name, families, level, rule, assumptio
         if n < 0:
             n = len(pool)           # one run per pool message
         n = int(n * float(os.environ.get('VERIF_SCALE', '1')))      # experiments only
+        if os.environ.get('VERIF_FAMILIES') and fam not in os.environ['VERIF_FAMILIES'].split(','):
+            continue                                                  # experiments only
         if not n:
             continue
         t1 = time.time()
